@@ -1,6 +1,7 @@
 (** C13.  Only statements closed by [exact]. *)
 From Coq Require Import List Bool.
-From GB Require Import Num Event Cmp Outcome Fields FillQueue FieldsProofs TrivialProofs.
+From GB Require Import Num Event Cmp Outcome Fields FillQueue Subdivide FieldsProofs TrivialProofs LinkProofs.
+Import ListNotations.
 
 (** queue filling computes exact bounding boxes: min/max over the start points of the
     non-collapsed edges, for every instance *)
@@ -12,3 +13,36 @@ Theorem C13_clipping_box_exact :
   forall (N : Num) (subject clipping : list (FillQueue.polygon N)) (op : operation),
   f_cbbox (fill_queue subject clipping op) = fold_left (bb_add (N:=N)) (starts_of clipping) (empty_bb N).
 Proof. exact fill_queue_cbbox. Qed.
+
+(** every event in the queue after [fill_queue] — and every event returned by [subdivide],
+    whatever the numeric instance, the input and the configuration — is one end of a mutually
+    linked pair: it has a partner, the partner's partner is the event itself, the two are
+    distinct and belong to the same operand and contour.  (An invariant of the whole sweep
+    loop, proved through [divide_segment], [possible_intersection], [compute_fields], the
+    std heap and the splay tree without any assumption on the comparators.) *)
+Theorem C13_queue_events_linked :
+  forall (N : Num) (A B : list (FillQueue.polygon N)) (op : operation) (i : eid),
+  In i (f_q (fill_queue A B op)) -> exists o, partner_ok N (f_st (fill_queue A B op)) i o.
+Proof. exact fill_queue_events_linked. Qed.
+
+Theorem C13_subdivided_events_linked :
+  forall (N : Num) cfg fuel (A B : list (FillQueue.polygon N)) (op : operation)
+         (st : store N) (sorted : list eid) (n : nat),
+  subdivide cfg fuel (fill_queue A B op) op = Ok (st, sorted, n) ->
+  forall i, In i sorted -> exists o, partner_ok N st i o.
+Proof. exact subdivide_events_linked. Qed.
+
+(** what [partner_ok] says *)
+Theorem C13_partner_ok_unfold :
+  forall (N : Num) (st : store N) (i o : eid), partner_ok N st i o <->
+  (e_other (getE st i) = Some o /\ o <> i /\ mapped N st o /\ e_other (getE st o) = Some i
+   /\ e_is_subject (getE st o) = e_is_subject (getE st i)
+   /\ e_contour_id (getE st o) = e_contour_id (getE st i)).
+Proof. exact (fun N st i o => conj (fun H => H) (fun H => H)). Qed.
+
+(** non-vacuity: the F2 witness goes through the sweep and returns 20 events *)
+From GB Require Import NumQ Cert.
+Example C13_example :
+  exists st sorted n, subdivide release 1000 (fill_queue F2_A F2_B Union) Union = Ok (st, sorted, n)
+                      /\ length sorted = 20%nat.
+Proof. vm_compute. do 3 eexists. split; reflexivity. Qed.
